@@ -248,13 +248,16 @@ class LinearFilter(LinearFilterProperties):
         gen_func += ["  {d_vars} = zero".format(d_vars=" = ".join(
                       ["d{}".format(el) for el in xrange(1, lb)]
                     ))]
-      gen_func += ["  for d0 in seq:",
-                   "    m0 = {expr}".format(expr=expr),
-                   "    yield m0"]
-      gen_func += ["    m{idx} = m{idxold}".format(idx=idx, idxold=idx - 1)
+      gen_func += ["  try:",
+                   "    for d0 in seq:",
+                   "      m0 = {expr}".format(expr=expr),
+                   "      yield m0"]
+      gen_func += ["      m{idx} = m{idxold}".format(idx=idx, idxold=idx - 1)
                    for idx in xrange(lm, 0, -1)]
-      gen_func += ["    d{idx} = d{idxold}".format(idx=idx, idxold=idx - 1)
+      gen_func += ["      d{idx} = d{idxold}".format(idx=idx, idxold=idx - 1)
                    for idx in xrange(lb - 1, 0, -1)]
+      gen_func += ["  except StopIteration: # A coefficient Stream finished",
+                   "    return"]
 
     # Uses the generator function to return the desired values
     gen = _exec_eval("\n".join(gen_func), "gen")
